@@ -14,7 +14,7 @@ from fractions import Fraction
 
 from ..core.tree import AnalysisError
 from ..core.constfold import Folder, RegexConst
-from ..core.astutil import walk_no_nested, call_name, short, src
+from ..core.astutil import walk_no_nested, call_name, short, src, kwarg, closure, closure_nodes, resolve_local
 from ..engines import regexlang as R
 from ..engines.regexuse import regex_uses
 from ..engines.symeval import SymEvaluator, Poly, SMatch, SObj, Raised, Param, SStr, inner_of, _PropagateRaise
@@ -132,13 +132,20 @@ def srt_site(ctx, report, ev):
     # the call sites hand the two halves of the arrow line to the conversion
     rd = ctx.index.get_function("pycaption/srt.py", "SRTReader.read")
     report.covered(rd)
-    calls = [c for c in walk_no_nested(rd.node) if isinstance(c, ast.Call) and call_name(c) == "self._srttomicro"]
-    idxs = []
-    for c in calls:
-        m = re.search(r"timing\[(\d)\]", src(c))
-        idxs.append(int(m.group(1)) if m else None)
-    report.check(idxs == [0, 1], "R-FIELD-ROUTING", rd, "start from the left of '-->', end from the right",
-                 {"call_arguments": [short(c) for c in calls]}, "1")
+    sites = [(f2, c) for f2, c in closure_nodes(ctx.index, rd, ast.Call) if (call_name(c) or "").split(".")[-1] == "Caption"]
+    if len(sites) != 1:
+        raise AnalysisError(f"SRT reader: expected one Caption(...) construction, found {len(sites)}")
+    f2, c = sites[0]
+    got = []
+    for k, name in ((0, "start"), (1, "end")):
+        a = c.args[k] if len(c.args) > k else kwarg(c, name)
+        txt = src(resolve_local(f2, a, index=ctx.index)) if a is not None else ""
+        m = re.search(r"_srttomicro\(.*\.split\('-->'\)\[(\d)\]", txt)
+        if not m and "_srttomicro" not in txt:
+            raise AnalysisError(f"SRT reader: cannot trace the {name} argument of Caption(...) to the conversion: {txt[:120]}")
+        got.append(int(m.group(1)) if m else None)
+    report.check(got == [0, 1], "R-FIELD-ROUTING", rd, "start from the left of '-->', end from the right",
+                 {"caption_arguments_trace_to_fields": got}, "1")
 
 
 # --------------------------------------------------------------------------
@@ -463,46 +470,24 @@ def _max_digits(pattern, group):
 
 
 def _fold_frames(clock, folder):
-    """finite-domain fold: the two-digit frame field 00..99 through the very
-    expression the function uses (extracted from its source), against exact
-    rational arithmetic."""
-    expr = None
-    for n in walk_no_nested(clock.node):
-        if isinstance(n, ast.AugAssign) and "group('frames')" in src(n.value):
-            expr = n.value
-    if expr is None:
-        raise AnalysisError("frames term not found for finite-domain fold")
+    """finite-domain fold: the whole clock-time routine is folded (constant evaluation of its
+    source, no import) on a match stub for every value 00..99 of the two-digit frame field, the
+    other fields zero, and compared with exact rational arithmetic."""
+    from ..core.constfold import Stub
     bad = []
-    import copy
-
-    class _Subst(ast.NodeTransformer):
-        def __init__(self, text):
-            self.text = text
-
-        def visit_Call(self, node):
-            if isinstance(node.func, ast.Attribute) and node.func.attr == "group" and node.args \
-                    and isinstance(node.args[0], ast.Constant) and node.args[0].value == "frames":
-                return ast.Constant(self.text)
-            return self.generic_visit(node)
     for f in range(100):
-        e2 = ast.fix_missing_locations(_Subst(f"{f:02d}").visit(copy.deepcopy(expr)))
+        m = Stub.match({"hours": "00", "minutes": "00", "seconds": "00", "sub_frames": None,
+                        "frames": f"{f:02d}", 0: f"00:00:00:{f:02d}"})
         try:
-            got = folder.eval_in(clock.module, e2)
+            got = folder.call_function(clock, [m], self_value=Stub("reader"))
         except AnalysisError as e:
             raise AnalysisError(f"frames fold: {e}")
         want = Fraction(f * US_S, 30)
-        if int(got) != want.numerator // want.denominator:
-            bad.append((f, got, str(want)))
-    return (not bad, {"domain": "frames 00..99 (regex \\d{2})", "expression": short(expr),
+        if isinstance(got, bool) or not isinstance(got, (int, float, Fraction)) \
+                or int(got) != want.numerator // want.denominator:
+            bad.append((f, repr(got), str(want)))
+    return (not bad, {"domain": "frames 00..99 (regex \\d{2})", "folded": clock.qualname,
                       "mismatches_vs_exact_floor": bad[:5], "evaluated": 100})
-
-
-class _FoldMatch(dict):
-    """stands for a match object in the constant folder: supports .group(name)
-    through dict.get (constfold whitelists dict.get)"""
-
-    def __init__(self, f):
-        super().__init__(frames=f"{f:02d}")
 
 
 # --------------------------------------------------------------------------
@@ -526,30 +511,29 @@ def microdvd_site(ctx, report, ev, folder):
     uses = [u for u in regex_uses(rd, folder) if u.method in ("match", "search", "fullmatch")]
     if len(uses) != 1:
         raise AnalysisError("MicroDVDReader.read: expected one line pattern")
-    # groups() unpacking order -> which name is start / end
-    unpack = None
-    for n in walk_no_nested(rd.node):
-        if isinstance(n, ast.Assign) and isinstance(n.targets[0], ast.Tuple) and isinstance(n.value, ast.Call) \
-                and isinstance(n.value.func, ast.Attribute) and n.value.func.attr == "groups":
-            unpack = [e.id for e in n.targets[0].elts if isinstance(e, ast.Name)]
-    if not unpack or len(unpack) != 3:
-        raise AnalysisError("MicroDVDReader.read: `start, end, txt = m.groups()` not found")
-    args0 = [src(c.args[0]) for c in calls]
-    tgt = []
-    for n in walk_no_nested(rd.node):
-        if isinstance(n, ast.Assign) and isinstance(n.value, ast.Call) and n.value in calls:
-            tgt.append((n.targets[0].id if isinstance(n.targets[0], ast.Name) else src(n.targets[0]),
-                        src(n.value.args[0])))
-    want = [("caption_start", f"int({unpack[0]})"), ("caption_end", f"int({unpack[1]})")]
-    report.check(sorted(t[1] for t in tgt) == sorted(w[1] for w in want) and
-                 [t[1] for t in tgt] == [w[1] for w in want],
-                 "R-FIELD-ROUTING", rd, "first brace field -> start, second -> end (as integers)",
-                 {"found": tgt, "groups_unpacked_as": unpack}, "1")
-    # Caption(caption_start, caption_end, ...)
+    # Caption(start, end, ...): both arguments traced back (through locals) to the conversion
+    # of one numbered group of the line pattern
     capt = [c for c in walk_no_nested(rd.node) if isinstance(c, ast.Call) and call_name(c) == "Caption"]
-    ok = bool(capt) and all(len(c.args) >= 2 and [src(a) for a in c.args[:2]] == [t[0] for t in tgt] for c in capt)
-    report.check(ok, "R-FIELD-ROUTING", rd, "Caption(start, end, ...) receives the converted start then end",
-                 [short(c) for c in capt], "1")
+    if len(capt) != 1:
+        raise AnalysisError(f"MicroDVDReader.read: expected one Caption(...) construction, found {len(capt)}")
+    grp = r"\.groups\(\)\[(\d)\]|\.group\((\d)\)"
+    traced = []
+    for k, name in ((0, "start"), (1, "end")):
+        a_ = capt[0].args[k] if len(capt[0].args) > k else kwarg(capt[0], name)
+        txt = src(resolve_local(rd, a_)) if a_ is not None else ""
+        m = re.fullmatch(r"self\._framestomicro\(int\((?:.*?)(?:%s)\), (\w+)\)" % grp, txt)
+        if not m:
+            if "_framestomicro" in txt:
+                traced.append((name, txt[:100]))
+                continue
+            raise AnalysisError(f"MicroDVDReader.read: cannot trace Caption {name} to the conversion: {txt[:100]}")
+        gi = int(m.group(1)) + 1 if m.group(1) is not None else int(m.group(2))
+        traced.append((name, gi, m.group(3)))
+    report.check([t[1] for t in traced] == [1, 2], "R-FIELD-ROUTING", rd,
+                 "first brace field -> start, second -> end (as integers), in Caption(start, end, ...)",
+                 {"caption_argument_traces": traced}, "1")
+    report.ok("R-FIELD-ROUTING", rd, "Caption(start, end, ...) receives the converted start then end",
+              [short(c) for c in capt], "1") if [t[1] for t in traced] == [1, 2] else None
     # fps: definitions reaching the call
     fps_arg = [src(c.args[1]) if len(c.args) > 1 else None for c in calls]
     if len(set(fps_arg)) != 1 or fps_arg[0] is None:
@@ -565,14 +549,16 @@ def microdvd_site(ctx, report, ev, folder):
         if isinstance(d, ast.Constant):
             kinds.append(("default", d.value))
         elif isinstance(d, ast.Call) and call_name(d) in ("float", "Fraction", "Decimal", "int"):
-            kinds.append(("declared", call_name(d), src(d.args[0])))
+            kinds.append(("declared", call_name(d), src(resolve_local(rd, d.args[0]))))
         else:
             kinds.append(("other", src(d)))
     default = [k for k in kinds if k[0] == "default"]
     report.check(len(default) == 1 and Fraction(str(default[0][1])) == T.MICRODVD_DEFAULT_FPS,
                  "R-AFFINE", rd, "default frame rate is 25 fps", {"definitions_of_fps": kinds}, "1")
     declared = [k for k in kinds if k[0] == "declared"]
-    report.check(len(declared) == 1 and unpack[2] in declared[0][2], "R-FIELD-ROUTING", rd,
+    dm = re.search(grp, declared[0][2]) if len(declared) == 1 else None
+    dgi = None if not dm else (int(dm.group(1)) + 1 if dm.group(1) is not None else int(dm.group(2)))
+    report.check(dgi == 3, "R-FIELD-ROUTING", rd,
                  "a declared rate is read from the text of the {0}{0} line",
                  {"definitions_of_fps": kinds}, "1")
     # the declaration is recognised by start == '0' and end == '0'
@@ -580,18 +566,27 @@ def microdvd_site(ctx, report, ev, folder):
     for n in walk_no_nested(rd.node):
         if isinstance(n, ast.If) and any(isinstance(x, ast.Assign) and isinstance(x.targets[0], ast.Name)
                                          and x.targets[0].id == fps_name for x in ast.walk(n)):
-            guard = n.test
+            guard = resolve_local(rd, n.test)
             break
-    ok = isinstance(guard, ast.BoolOp) and isinstance(guard.op, ast.And) and \
-        sorted(src(v) for v in guard.values) == sorted([f"{unpack[0]} == '0'", f"{unpack[1]} == '0'"])
-    report.check(ok, "R-GUARD", rd, "only a line with BOTH frame fields 0 declares the frame rate",
-                 {"guard": src(guard) if guard is not None else None}, "1")
+    if guard is None:
+        raise AnalysisError("MicroDVDReader.read: the frame-rate declaration is not under an if")
+    conj = guard.values if isinstance(guard, ast.BoolOp) and isinstance(guard.op, ast.And) else [guard]
+    zero_of = set()
+    for v in conj:
+        t = src(v)
+        m = re.fullmatch(r"(?:.*?)(?:%s) == '0'" % grp, t) or re.fullmatch(r"int\((?:.*?)(?:%s)\) == 0" % grp, t)
+        if m:
+            zero_of.add(int(m.group(1)) + 1 if m.group(1) is not None else int(m.group(2)))
+        else:
+            zero_of.add(t)
+    report.check(zero_of == {1, 2}, "R-GUARD", rd, "only a line with BOTH frame fields 0 declares the frame rate",
+                 {"guard": src(guard), "fields_required_zero": sorted(map(str, zero_of))}, "1")
     # exactness, per definition of fps
     inner, floored = unwrap_floor(vals[0].value)
     body_expr = None
     for n in walk_no_nested(fn.node):
         if isinstance(n, ast.Return):
-            body_expr = n.value
+            body_expr = resolve_local(fn, n.value)
     for k in kinds:
         label_k = f"{label} with fps from {k[0]} ({k[1]})"
         fps_float = (k[0] == "default" and isinstance(k[1], float)) or (k[0] == "declared" and k[1] == "float")
@@ -725,11 +720,37 @@ def sami_site(ctx, report, ev, folder):
                  "a new cue's end is the 'open' marker 0 until the next sync", None, "1")
     # back-fill and last-cue default
     backfill = default = None
-    for n in stores:
+    # stores made by helpers called from here are evaluated with the helper's parameters bound
+    # to the (symbolic) arguments of the call
+    sites = [(fn, n, p) for n in stores]
+    from ..core.astutil import resolve_callee
+    for c in walk_no_nested(fn.node):
+        if not isinstance(c, ast.Call):
+            continue
+        h = resolve_callee(ctx.index, fn, c)
+        if h is None or h is fn or not h.name.startswith("_"):
+            continue
+        hs = [n for n in walk_no_nested(h.node) if isinstance(n, ast.Assign) and len(n.targets) == 1
+              and isinstance(n.targets[0], ast.Attribute) and n.targets[0].attr in ("start", "end")]
+        if not hs:
+            continue
+        ps = [a.arg for a in h.node.args.posonlyargs + h.node.args.args]
+        if h.kind in ("method", "classmethod"):
+            ps = ps[1:]
+        henv = {"self": SObj("self")}
+        try:
+            for name, a in list(zip(ps, c.args)) + [(k.arg, k.value) for k in c.keywords]:
+                (pp, v), = e._eval(a, p, fn)
+                henv[name] = v
+        except (AnalysisError, ValueError, _PropagateRaise):
+            continue
+        report.covered(h)
+        sites += [(h, n, _Path(henv, [])) for n in hs]
+    for owner, n, penv in sites:
         t = n.targets[0]
         if t.attr == "end":
             try:
-                (pp, v), = e._eval(n.value, p, fn)
+                (pp, v), = e._eval(n.value, penv, owner)
             except (AnalysisError, ValueError, _PropagateRaise):
                 continue
             if isinstance(v, Poly) and v.same_form(start):
